@@ -11,7 +11,9 @@ use std::time::Instant;
 
 use serde_json::{json, Map, Value};
 
-pub const VERIF_DIR: &str = "/verif";
+/// Home of the verification machinery: `/verif`, or `$VERIF_HOME` (set by the driver script when it runs from a
+/// snapshot copy, so that a background run does not write into the live directory).
+pub fn verif_dir() -> String { std::env::var("VERIF_HOME").unwrap_or_else(|_| "/verif".to_string()) }
 
 #[derive(Clone, Copy, PartialEq, Eq, Debug)]
 pub enum Tier { Quick, Thorough }
@@ -91,7 +93,7 @@ pub struct KnownFindings {
 
 impl KnownFindings {
   pub fn load() -> Self {
-    let path = format!("{}/known_findings.json", VERIF_DIR);
+    let path = format!("{}/known_findings.json", verif_dir());
     let mut kf = KnownFindings::default();
     let Ok(text) = fs::read_to_string(&path) else { return kf; };
     let v: Value = match serde_json::from_str(&text) {
@@ -200,13 +202,13 @@ impl Report {
     }
     self.coverage.insert("known_findings_met".into(), Value::Array(known_json));
     let mut exit = 0;
-    let _ = fs::create_dir_all(format!("{}/replays", VERIF_DIR));
+    let _ = fs::create_dir_all(format!("{}/replays", verif_dir()));
     for v in &self.violations {
       let text = serde_json::to_string_pretty(&json!({
         "property": v.property, "oracle": v.oracle, "key": v.key, "what": v.what, "replay": v.replay,
       })).unwrap();
       let digest = fnv64(text.as_bytes());
-      let path = format!("{}/replays/{}-{:016x}.json", VERIF_DIR, v.property, digest);
+      let path = format!("{}/replays/{}-{:016x}.json", verif_dir(), v.property, digest);
       if let Err(e) = fs::write(&path, &text) { engine_error(&format!("cannot write replay {}: {}", path, e)); }
       println!("VIOLATION property={} replay={}", v.property, path);
       println!("  oracle={} key={} what={}", v.oracle, v.key, v.what);
@@ -222,8 +224,8 @@ impl Report {
       "wall_s": wall,
       "violations": self.violations.len(),
     });
-    let _ = fs::create_dir_all(format!("{}/evidence", VERIF_DIR));
-    let path = format!("{}/evidence/{}.json", VERIF_DIR, self.property);
+    let _ = fs::create_dir_all(format!("{}/evidence", verif_dir()));
+    let path = format!("{}/evidence/{}.json", verif_dir(), self.property);
     if let Err(e) = fs::write(&path, serde_json::to_string_pretty(&evidence).unwrap()) {
       engine_error(&format!("cannot write evidence {}: {}", path, e));
     }
